@@ -120,6 +120,9 @@ def doc(rng):
                 parts.append(rng.choice(gen.WORDS) + ((rng.choice(gen.EXOTIC_BREAKS) if rng.random() < 0.04 else " ") if rng.random() < 0.7 else ""))
             else:
                 parts.append(rng.choice(TOKS))
+        if rng.random() < 0.12:
+            # attribute-like endings other dialects give a meaning to (explicit heading ids, classes, trailing hashes): plain text here
+            parts.append(rng.choice([" {#%s}", " {.%s}", " {%s}", " {: #%s}", " {#%s} #", " {#%s} ##  ", " #%s", " {#%s .x}", "{#%s}", " {#%s}\\"]) % rng.choice(gen.WORDS))
         lines.append("".join(parts))
     return "\n".join(lines) + rng.choice(["\n", "", "\n\n"])
 
